@@ -166,6 +166,7 @@ def std_struct_config(rng, *, kinds, always=(), multi_p=0.3, lo=3, hi=60, mean=1
     )
     cfg["restarts"] = rng.random() < 0.3  # pickle round trips (in process) in mid-history
     cfg["p_item_syntax"] = rng.choice([0.0, 0.0, 0.3])  # e["v2"] = x instead of e.v2 = x
+    cfg["p_w_error"] = rng.choice([0.0, 0.0, 0.15])  # calls made with warnings turned into errors
     cfg["multi"] = rng.random() < multi_p
     cfg["nmv"] = rng.randint(1, 3)
     kinds = list(kinds)
